@@ -131,6 +131,41 @@ pub fn gen(tier: &str, rng: &mut Rng, out: &mut Vec<String>) {
     }
 }
 
+/// The transition table of a `BOM`, read off its derived `Debug` output (the fields are private):
+/// `BOM { m: 3, table: [{97: 1, 98: 2}, {98: 3}, {}] }`  →  `97:1,98:2;98:3;-`  (states `;`-separated, entries
+/// `symbol:target` in ascending symbol order).  `?` if the text does not have the expected shape.
+fn bom_table(m: &BOM) -> String {
+    let d = format!("{:?}", m);
+    let body = match (d.find("table: ["), d.rfind(']')) {
+        (Some(a), Some(b)) if a + 8 <= b => &d[a + 8..b],
+        _ => return "?".into(),
+    };
+    let mut states: Vec<String> = vec![];
+    let mut rest = body;
+    while let Some(a) = rest.find('{') {
+        let b = match rest[a..].find('}') {
+            Some(b) => a + b,
+            None => return "?".into(),
+        };
+        let inner = &rest[a + 1..b];
+        let mut es: Vec<String> = vec![];
+        for e in inner.split(',').map(|e| e.trim()).filter(|e| !e.is_empty()) {
+            let kv: Vec<&str> = e.split(':').map(|x| x.trim()).collect();
+            if kv.len() != 2 || kv[0].parse::<usize>().is_err() || kv[1].parse::<usize>().is_err() {
+                return "?".into();
+            }
+            es.push(format!("{}:{}", kv[0], kv[1]));
+        }
+        states.push(if es.is_empty() { "-".into() } else { es.join(",") });
+        rest = &rest[b + 1..];
+    }
+    if states.is_empty() {
+        "?".into()
+    } else {
+        states.join(";")
+    }
+}
+
 pub fn exec(toks: &[&str]) -> Result<String, String> {
     if toks.len() != 3 {
         return Err("arity".into());
@@ -159,6 +194,8 @@ pub fn exec(toks: &[&str]) -> Result<String, String> {
             for t in &texts {
                 outs.push(join(&m.find_all(t).collect::<Vec<usize>>(), ","));
             }
+            // the oracle table as well (compared with the Lean model of `BOM::new` by the driver; informational)
+            return Ok(format!("{}|{}", outs.join("/"), bom_table(&m)));
         }
         "horspool" => {
             let m = Horspool::new(&p);
